@@ -214,6 +214,42 @@ def directed_scan_race(exe, root):
                 % (res[0][1], res[0][2], res[0][3], res[1][1], res[1][2], res[1][3]))
     return None
 
+def early_stop(exe, shim, root, seed, stats):
+    """early stop by a signal at some stripe, threaded rings of several depths with seeded yields: whatever the content file
+    saved at the stop records as synced must be in the parity (queued parity writes are drained, not dropped), for every
+    depth; the follow-up sync and check are clean"""
+    import signal
+    rng = e2e.Rng(seed)
+    a = e2e.Arr(root, exe, ndisks=3, nparity=1 + rng.below(2), ncontent=1)
+    s = sim.Sim(a, rng.fork(), weird_names=False)
+    for d in a.disks:
+        a.write(d, 'old', rng.bytes(1024 * (2 + rng.below(4))), s.tick())
+    if s.sync().rc != 0:
+        a.destroy(); return None
+    for d in a.disks:
+        a.write(d, 'big', rng.bytes(1024 * (150 + rng.below(100))), s.tick())
+    s.remember()
+    backup = root + '.bak'
+    shutil.copytree(a.root, backup, symlinks=True)
+    out = None
+    for cache in (3, 16, 128):
+        shutil.rmtree(a.root); shutil.copytree(backup, a.root, symlinks=True)
+        k = 40 + rng.below(120)       # a state-changing call in the middle of the parity writes
+        env = {'LD_PRELOAD': shim, 'VERIF_SIGNAL': '%d:%d' % (k, signal.SIGINT), 'SNAPRAID_VERIF_YIELD': str(rng.below(10**6) + 1)}
+        r = a.cmd('sync', '--test-io-cache=%d' % cache, env=env, timeout=180)
+        stats['early_stops'] = stats.get('early_stops', 0) + 1
+        if not os.path.exists(a.contents[0]): continue
+        pr, st = s.invariant_problems()
+        if pr:
+            out = ('[early-stop] after a sync stopped by SIGINT at state-changing call %d (ring of %d, exit %d): %s' % (k, cache, r.rc, pr[0]), '\n'.join(pr[:6])); break
+        r2 = s.sync()
+        c = a.cmd('check')
+        if r2.rc == 0 and c.rc != 0:
+            out = ('[early-stop] check fails (exit %d) after the sync that follows a SIGINT stop at call %d (ring of %d)' % (c.rc, k, cache), c.out[-400:]); break
+    shutil.rmtree(backup, ignore_errors=True)
+    a.destroy()
+    return out
+
 def main(tier, seed):
     chk = vlib.Check('C13', 'proof', tier, seed)
     chk.assumptions = ['the model`s atomic steps are the critical sections under io_mutex; condition variables are modelled by sleeping flags (a signal with no sleeper is lost, spurious wake-ups are accepted by the trace acceptor and counted)',
@@ -242,6 +278,8 @@ def main(tier, seed):
         return scenario(exe, shim, os.path.join(vlib.scratch(), 'sc%d' % i), seed * 100000 + 95000 + i, stats)
     with ThreadPoolExecutor(max(2, vlib.NCPU // 2)) as ex:
         res = list(ex.map(job, range(n)))
+    for i in range(4 if tier == 'quick' else 40):
+        res.append(early_stop(exe, shim, os.path.join(vlib.scratch(), 'es%d' % i), seed * 100000 + 96000 + i, stats))
     k = 0
     seen = set()
     for r in res:
@@ -258,7 +296,7 @@ def main(tier, seed):
     chk.evaluations = stats['runs'] + stats['scan_pairs']
     chk.distinct = stats['traces']
     chk.extra.update({'states': stats['events'], 'explanation': 'the ring protocol is proved for every N >= 3, R, W, M and every interleaving (no bound); every traced run of the binary is replayed on the model; results of sync and scrub compared across cache depths 1, 3, 4, random 5..124, 128 with seeded yields at the hand-over points'})
-    chk.rule = ('%d arrays (1-4 disks, 1-3 parities) x {sync of pending changes with silent errors in synced blocks, scrub -p full with unsynced changes, silent data and parity errors} x 6 variants (--test-io-cache 1, 3, 4, random, 128 with seeded yields/sleeps at every hand-over, and 3 unperturbed): same exit status, error set, parity bytes and content bytes (time frozen); every hook trace accepted by the Lean ring model (guards, indices, signal flags) and FIFO on positions; diff with scan threads vs sequential scan; directed replay of the scan-thread copy race' % n)
+    chk.rule = ('%d arrays (1-4 disks, 1-3 parities) x {sync of pending changes with silent errors in synced blocks, scrub -p full with unsynced changes, silent data and parity errors} x 6 variants (--test-io-cache 1, 3, 4, random, 128 with seeded yields/sleeps at every hand-over, and 3 unperturbed): same exit status, error set, parity bytes and content bytes (time frozen); every hook trace accepted by the Lean ring model (guards, indices, signal flags) and FIFO on positions; diff with scan threads vs sequential scan; directed replay of the scan-thread copy race; syncs stopped by SIGINT in the middle of the parity writes (rings of 3, 16, 128): what the saved content records as synced is in the parity' % n)
     chk.samples = [dict(stats)]
     chk.corr['E2E-SCHED'] = dict(stats)
     chk.finish()
